@@ -7,6 +7,7 @@ package main
 
 import (
 	"fmt"
+	"math"
 	"os"
 	"path/filepath"
 	"sort"
@@ -14,6 +15,7 @@ import (
 	"time"
 
 	"github.com/google/mtail/internal/metrics"
+	"github.com/google/mtail/internal/metrics/datum"
 	"github.com/google/mtail/internal/runtime"
 	"github.com/google/mtail/internal/zverif/hsx"
 	"github.com/google/mtail/internal/zverif/shared/mt"
@@ -49,7 +51,14 @@ var versions = []version{
 	{"V6syntax", "counter n by k\ngauge g\ncounter total\n/^k (\\w+)$/ {\n"},
 	{"V7clash", "counter n by k\ngauge g\ncounter total\ncounter other\n" + strings.Replace(body, "g = 7", "g = 7\n  other++", 1)},
 	{"V8body", "counter n by k\ngauge g\ncounter total\n" + strings.Replace(body, "g = 7", "g = 8", 1)},
+	// histogram declarations: the same buckets, one boundary changed, one boundary added
+	{"V9hist", "counter n by k\ngauge g\ncounter total\nhistogram h buckets 1, 2\n" + body + histBody},
+	{"V10rebucket", "counter n by k\ngauge g\ncounter total\nhistogram h buckets 1, 4\n" + body + histBody},
+	{"V11morebuckets", "counter n by k\ngauge g\ncounter total\nhistogram h buckets 1, 2, 4\n" + body + histBody},
+	{"V12histcomment", "counter n by k\ngauge g\ncounter total\nhistogram h buckets 1, 2\n" + body + histBody + "# a comment\n"},
 }
+
+const histBody = "/^h (\\S+)$/ {\n  h = float($1)\n}\n"
 
 const otherProg = "gauge other\n/^z$/ {\n  other = 1\n}\n"
 
@@ -92,6 +101,9 @@ func observe(rt *rtx.RT) snap {
 	var lines []string
 	for _, m := range rt.ProgMetrics(P) {
 		o := mobs{desc: fmt.Sprintf("%s %s %s keys=%q at %s", m.Kind, m.Name, m.Type, m.Keys, m.Source), labels: map[string]string{}}
+		if m.Kind == metrics.Histogram {
+			o.desc += fmt.Sprintf(" buckets=%v", m.Buckets) // the bucket list is part of the declaration
+		}
 		for _, lv := range m.LabelValues {
 			k := fmt.Sprintf("%q", lv.Labels)
 			o.labels[k] = fmt.Sprintf("%s expiry=%v", mt.Val(lv.Value), lv.Expiry)
@@ -167,6 +179,7 @@ type outcome struct {
 	failed        []bool // per op: a load that failed
 	dup, dupKey   string
 	inconsistent  string
+	histogram     string // a registered histogram whose data do not have the declared buckets, or whose buckets do not sum to the count
 	bad           string
 	applic        bool
 }
@@ -268,6 +281,33 @@ func execute(ops []op, skip []bool, withOther bool, vr variant, opts ...runtime.
 			if s := m.VerifConsistent(); s != "" {
 				o.inconsistent = fmt.Sprintf("metric %s (declared at %s): %s", m.Name, m.Source, s)
 			}
+			if m.Kind != metrics.Histogram {
+				continue
+			}
+			var declared []string
+			for _, r := range m.Buckets {
+				if !math.IsInf(r.Max, 1) {
+					declared = append(declared, fmt.Sprintf("%v", r.Max))
+				}
+			}
+			sort.Strings(declared)
+			for _, lv := range m.LabelValues {
+				bd := datum.GetBuckets(lv.Value)
+				var have []string
+				var tot uint64
+				for r, n := range bd.GetBuckets() {
+					if !math.IsInf(r.Max, 1) {
+						have = append(have, fmt.Sprintf("%v", r.Max))
+					}
+					tot += n
+				}
+				sort.Strings(have)
+				if strings.Join(have, ",") != strings.Join(declared, ",") {
+					o.histogram = fmt.Sprintf("histogram %s is declared with the bucket bounds [%s] but its data are bucketed by [%s]", m.Name, strings.Join(declared, ","), strings.Join(have, ","))
+				} else if tot != bd.GetCount() {
+					o.histogram = fmt.Sprintf("histogram %s: the bucket counts sum to %d, the observation count is %d", m.Name, tot, bd.GetCount())
+				}
+			}
 		}
 	})
 	if a := hsx.Anomaly(res); a != "" && o.bad == "" {
@@ -367,6 +407,9 @@ func mkConfig(c *vlib.Ctx, cname string, vers []int, lines []string, withOther b
 			if r.inconsistent != "" {
 				return viol("slice-index-inconsistent", "a metric lists a label set that lookups do not find (or the reverse): "+r.inconsistent)
 			}
+			if r.histogram != "" {
+				return viol("histogram-malformed", r.histogram)
+			}
 			if r.dup != "" {
 				return hsx.Result{Violation: "history: " + hstr + "\n" + r.dup, VKey: "duplicate-series " + r.dupKey}
 			}
@@ -415,6 +458,7 @@ func main() {
 			mkConfig(c, "with-size-limit/depth4", []int{1, 2, 6, 8, 9}, []string{"k a", "k b", "o a"}, false, 4, variant{limit: true}),
 			mkConfig(c, "via-program-directory/depth3", all, []string{"k a", "o a"}, true, 3, variant{viaDir: true}),
 			mkConfig(c, "omit-metric-source/depth3", all, []string{"k a", "o a"}, false, 3, variant{}, runtime.OmitMetricSource()),
+			mkConfig(c, "histogram-declarations/depth4", []int{10, 11, 12, 13, 7}, []string{"h 1.5", "h 3"}, false, 4, variant{}),
 		)
 	} else {
 		cfgs = append(cfgs,
@@ -424,6 +468,7 @@ func main() {
 			mkConfig(c, "with-size-limit/depth5", all, lines, false, 5, variant{limit: true}),
 			mkConfig(c, "via-program-directory/depth4", all, lines, true, 4, variant{viaDir: true}),
 			mkConfig(c, "omit-metric-source/depth4", all, lines, false, 4, variant{}, runtime.OmitMetricSource()),
+			mkConfig(c, "histogram-declarations/depth6", []int{10, 11, 12, 13, 7}, []string{"h 1.5", "h 3", "h 0.5"}, false, 6, variant{}),
 		)
 	}
 	c.Assume = []string{
